@@ -113,7 +113,13 @@ impl SimTimer {
             }
         }
         let (id, gate) = GateFut::new(&self.w, GateKind::Timer(spec));
-        lock(&self.w).push(Ev::TimerArm { id, spec });
+        let mut g = lock(&self.w);
+        g.push(Ev::TimerArm { id, spec });
+        if g.script.until_timers_ready && matches!(spec, TimerSpec::Until(_)) {
+            g.gates[id].state = GateState::Released;
+            g.push(Ev::TimerFire { id });
+        }
+        drop(g);
         gate.boxed()
     }
 }
@@ -621,7 +627,8 @@ impl SimStorage {
         if w.interact() {
             return Ok(());
         }
-        let fail = w.storage.next_key_op_fails(key);
+        let started = w.sessions.len();
+        let fail = w.storage.next_key_op_fails(key, started);
         if !fail {
             w.storage.pending.insert(key.to_string(), Some(value.clone()));
         }
@@ -676,7 +683,8 @@ impl Storage for SimStorage {
             if w.interact() {
                 Ok(())
             } else {
-                let fail = w.storage.next_key_op_fails(key);
+                let started = w.sessions.len();
+        let fail = w.storage.next_key_op_fails(key, started);
                 if !fail {
                     w.storage.pending.insert(key.to_string(), None);
                 }
